@@ -183,63 +183,6 @@ omit c in
 theorem step_now_irrelevant (body : σ → Resume → Burst ℚ σ) (fuel : Nat) (s : KState ℚ σ) (x : ℚ) :
     step body fuel { s with now := x } = step body fuel s := rfl
 
-/-- **`run(until=t)` is transparent up to the renaming of event ids.** -/
-theorem runUntilTime_transparent (body : σ → Resume → Burst ℚ σ) (fuel n : Nat) (s s' : KState ℚ σ) (v : Val)
-    (hu : c.u = s.events.size) (he : c.eid0 = s.eid) (hlt : s.now < c.t)
-    (hc : c.Closed s) (hs : SortedAg s) (hns : AllStopFree s) (hB : BodySim c.ρ c.rσ body)
-    (hf : c.FuelAlong body fuel s)
-    (h : runUntilTime body fuel n c.t s = .returned v s') :
-    v = .none ∧ ∃ k sk, k < n ∧ stepN body fuel k s = .ok sk ∧ s' = c.afterSentinel sk ∧ c.Inv sk ∧
-      c.FuelAlong body fuel sk ∧
-      (∀ m rest, popMin sk.agenda = some (m, rest) → (c.rnEntry m).lt c.sentEntry = false) := by
-  rw [runUntilTime_eq body fuel n c.t s hlt, c.plant_eq_T s hu he hc hs] at h
-  have g : c.Good s := ⟨⟨Nat.le_of_eq hu, Nat.le_of_eq he⟩, hs, hns⟩
-  obtain ⟨k, S, hk, h1, h2, _⟩ := runLoop_ended body fuel (some s.events.size) n (c.T true s)
-    (by intro s'' hc'; rw [hc'] at h; cases h)
-  rw [h2] at h
-  obtain ⟨sk, h3, rfl, gk, hfk⟩ := c.stepN_T_true body hB fuel k s S g hf h1
-  simp only [runLoop] at h
-  have hst := c.step_T_true sk body hB fuel gk.inv gk.sorted (hfk 0 sk rfl)
-  have hret : onStop (some s.events.size) (.ok .none) (c.afterSentinel sk) = .returned v s' →
-      v = .none ∧ s' = c.afterSentinel sk := by
-    intro hr
-    unfold onStop at hr
-    simp only [Option.bind_some] at hr
-    have hout : ((c.afterSentinel sk).ev s.events.size).out = some (.ok .none) := by
-      have h2 : (c.afterSentinel sk).ev s.events.size = (c.T false sk).ev c.u := by rw [hu]; rfl
-      rw [h2, c.ev_T_u false sk gk.inv]
-      rfl
-    rw [hout] at hr
-    simp only at hr
-    cases hr
-    exact ⟨rfl, rfl⟩
-  cases hp : popMin sk.agenda with
-  | none =>
-    rw [hp] at hst
-    rw [hst] at h
-    obtain ⟨hv, hs'⟩ := hret h
-    exact ⟨hv, k, sk, hk, h3, hs', gk.inv, hfk, by intro m rest hm; rw [hp] at hm; cases hm⟩
-  | some mr =>
-    obtain ⟨m, rest⟩ := mr
-    rw [hp] at hst
-    simp only at hst
-    by_cases hlt' : (c.rnEntry m).lt c.sentEntry = true
-    · rw [if_pos hlt'] at hst
-      rw [hst] at h
-      cases hs1 : step body fuel sk with
-      | ok s1 => rw [hs1] at h; cases h
-      | stopped o s1 => exact absurd hs1 (step_not_stopped_of_allStopFree body fuel sk gk.nostop o s1)
-      | crash x s1 => rw [hs1] at h; cases h
-      | empty => rw [hs1] at h; simp only [mapT, Option.isSome_some, if_true] at h; cases h
-    · rw [if_neg hlt'] at hst
-      rw [hst] at h
-      obtain ⟨hv, hs'⟩ := hret h
-      refine ⟨hv, k, sk, hk, h3, hs', gk.inv, hfk, ?_⟩
-      intro m' rest' hm
-      rw [hp] at hm
-      cases hm
-      simpa using hlt'
-
 /-- **after `run(until=t)` has returned, every continuation is the uninterrupted run with renamed ids**: `j + 1`
 further normal steps of the uninterrupted run are `j + 1` normal steps from the returned state, to the corresponding
 state (the first step overwrites the clock, the only field in which the returned state differs from `T false sk`) -/
@@ -290,5 +233,170 @@ theorem stepFuelOK_of_noBuild (body : σ → Resume → Burst ℚ σ) (fuel : Na
     | some cbs =>
       rw [hc] at h
       exact c.loopFuelOK_of_noBuild body fuel m.ev cbs _ h
+
+/-! ## what has been processed when `run(until=t)` returns -/
+
+/-- the key order against the sentinel in plain terms: strictly earlier, or at `t` itself, URGENT and pushed earlier -/
+theorem lt_sent_iff (m : QEntry ℚ) :
+    (c.rnEntry m).lt c.sentEntry = true ↔ m.time < c.t ∨ (m.time = c.t ∧ m.prio = URGENT ∧ m.eid < c.eid0) := by
+  rw [QEntry.lt_iff]
+  unfold QEntry.KeyLt
+  show m.time < c.t ∨ (m.time = c.t ∧ (m.prio < URGENT ∨ (m.prio = URGENT ∧ (c.rnEntry m).eid < c.eid0))) ↔ _
+  have he : (c.rnEntry m).eid < c.eid0 ↔ m.eid < c.eid0 := by
+    unfold rnEntry
+    show (if c.eid0 ≤ m.eid then m.eid + 1 else m.eid) < c.eid0 ↔ _
+    split <;> omega
+  rw [he]
+  constructor
+  · rintro (h | ⟨h1, h2 | h2⟩)
+    · exact Or.inl h
+    · exact absurd h2 (Nat.not_lt_zero _)
+    · exact Or.inr ⟨h1, h2⟩
+  · rintro (h | ⟨h1, h2⟩)
+    · exact Or.inl h
+    · exact Or.inr ⟨h1, Or.inr h2⟩
+
+/-- **every entry the split run processed before it returned was due before the sentinel** -/
+theorem processed_before_sentinel (body : σ → Resume → Burst ℚ σ) (hB : BodySim c.ρ c.rσ body) (fuel : Nat) (k : Nat)
+    (s S : KState ℚ σ) (g : c.Good s) (hf : c.FuelAlong body fuel s)
+    (h : stepN body fuel k (c.T true s) = .ok S) :
+    ∀ j, j < k → ∀ sj m rest, stepN body fuel j s = .ok sj → popMin sj.agenda = some (m, rest) →
+      (c.rnEntry m).lt c.sentEntry = true := by
+  induction k generalizing s with
+  | zero => intro j hj; exact absurd hj (Nat.not_lt_zero _)
+  | succ k ih =>
+    rw [stepN_succ] at h
+    have hst := c.step_T_true s body hB fuel g.inv g.sorted (hf 0 s rfl)
+    rw [hst] at h
+    cases hp : popMin s.agenda with
+    | none => rw [hp] at h; cases h
+    | some mr =>
+      obtain ⟨m0, rest0⟩ := mr
+      rw [hp] at h
+      simp only at h
+      by_cases hlt : (c.rnEntry m0).lt c.sentEntry = true
+      · rw [if_pos hlt] at h
+        cases hs : step body fuel s with
+        | ok s1 =>
+          rw [hs] at h
+          intro j hj sj m rest hsj hm
+          cases j with
+          | zero =>
+            cases hsj
+            rw [hp] at hm
+            cases hm
+            exact hlt
+          | succ j =>
+            rw [stepN_succ, hs] at hsj
+            exact ih s1 (g.step c body fuel (by rw [hs]; rfl)) (hf.tail c hs) h j (Nat.lt_of_succ_lt_succ hj) sj m rest hsj hm
+        | stopped o s1 => rw [hs] at h; cases h
+        | crash x s1 => rw [hs] at h; cases h
+        | empty => rw [hs] at h; cases h
+      · rw [if_neg hlt] at h; cases h
+
+/-! ## the returned state carries no stop -/
+
+theorem hasStop_T_false (s : KState ℚ σ) (h : c.Inv s) (hns : AllStopFree s) : AllStopFree (c.T false s) := by
+  apply (StopFree.iff _ _).mpr
+  intro (j : Nat) _
+  unfold KState.hasStop
+  by_cases hj : j = c.u
+  · rw [hj, c.ev_T_u false s h]; rfl
+  · -- `j` is the image of some id
+    have hex : ∃ e, c.ρ e = j := by
+      by_cases hlt : j < c.u
+      · exact ⟨j, c.ρ_lt hlt⟩
+      · have hpos := c.upos
+        obtain ⟨i, hi⟩ : ∃ i : Nat, j = i + 1 := ⟨j - 1, by omega⟩
+        have hge : c.u ≤ i := by omega
+        exact ⟨i, by rw [c.ρ_ge hge, hi]⟩
+    obtain ⟨e, rfl⟩ := hex
+    rw [c.cbs_T false s h]
+    have := (StopFree.iff _ s).mp hns e rfl
+    unfold KState.hasStop at this
+    cases hc : (s.ev e).cbs with
+    | none => rfl
+    | some l =>
+      rw [hc] at this
+      simp only [Option.map_some]
+      simp only at this
+      rw [Bool.eq_false_iff] at this ⊢
+      intro hm
+      apply this
+      simp only [List.contains_iff_mem, List.mem_map] at hm ⊢
+      obtain ⟨cb, hcb, hst⟩ := hm
+      cases cb <;> first | exact hcb | (simp [rnCb] at hst)
+
+theorem afterSentinel_stopFree (s : KState ℚ σ) (h : c.Inv s) (hns : AllStopFree s) : AllStopFree (c.afterSentinel s) := by
+  have := c.hasStop_T_false s h hns
+  apply (StopFree.iff _ _).mpr
+  intro j hj
+  exact (StopFree.iff _ _).mp this j hj
+
+/-- **`run(until=t)` is transparent up to the renaming of event ids.** -/
+theorem runUntilTime_transparent (body : σ → Resume → Burst ℚ σ) (fuel n : Nat) (s s' : KState ℚ σ) (v : Val)
+    (hu : c.u = s.events.size) (he : c.eid0 = s.eid) (hlt : s.now < c.t)
+    (hc : c.Closed s) (hs : SortedAg s) (hns : AllStopFree s) (hB : BodySim c.ρ c.rσ body)
+    (hf : c.FuelAlong body fuel s)
+    (h : runUntilTime body fuel n c.t s = .returned v s') :
+    v = .none ∧ ∃ k sk, k < n ∧ stepN body fuel k s = .ok sk ∧ s' = c.afterSentinel sk ∧ c.Inv sk ∧
+      c.FuelAlong body fuel sk ∧ AllStopFree s' ∧
+      (∀ j, j < k → ∀ sj m rest, stepN body fuel j s = .ok sj → popMin sj.agenda = some (m, rest) →
+        (m.time < c.t ∨ (m.time = c.t ∧ m.prio = URGENT ∧ m.eid < c.eid0))) ∧
+      (∀ m rest, popMin sk.agenda = some (m, rest) →
+        ¬ (m.time < c.t ∨ (m.time = c.t ∧ m.prio = URGENT ∧ m.eid < c.eid0))) := by
+  rw [runUntilTime_eq body fuel n c.t s hlt, c.plant_eq_T s hu he hc hs] at h
+  have g : c.Good s := ⟨⟨Nat.le_of_eq hu, Nat.le_of_eq he⟩, hs, hns⟩
+  obtain ⟨k, S, hk, h1, h2, _⟩ := runLoop_ended body fuel (some s.events.size) n (c.T true s)
+    (by intro s'' hc'; rw [hc'] at h; cases h)
+  rw [h2] at h
+  have hbefore := c.processed_before_sentinel body hB fuel k s S g hf h1
+  obtain ⟨sk, h3, rfl, gk, hfk⟩ := c.stepN_T_true body hB fuel k s S g hf h1
+  have hbefore' : ∀ j, j < k → ∀ sj m rest, stepN body fuel j s = .ok sj → popMin sj.agenda = some (m, rest) →
+      (m.time < c.t ∨ (m.time = c.t ∧ m.prio = URGENT ∧ m.eid < c.eid0)) :=
+    fun j hj sj m rest h1 h2 => (c.lt_sent_iff m).mp (hbefore j hj sj m rest h1 h2)
+  have hfree := c.afterSentinel_stopFree sk gk.inv gk.nostop
+  simp only [runLoop] at h
+  have hst := c.step_T_true sk body hB fuel gk.inv gk.sorted (hfk 0 sk rfl)
+  have hret : onStop (some s.events.size) (.ok .none) (c.afterSentinel sk) = .returned v s' →
+      v = .none ∧ s' = c.afterSentinel sk := by
+    intro hr
+    unfold onStop at hr
+    simp only [Option.bind_some] at hr
+    have hout : ((c.afterSentinel sk).ev s.events.size).out = some (.ok .none) := by
+      have h2 : (c.afterSentinel sk).ev s.events.size = (c.T false sk).ev c.u := by rw [hu]; rfl
+      rw [h2, c.ev_T_u false sk gk.inv]
+      rfl
+    rw [hout] at hr
+    simp only at hr
+    cases hr
+    exact ⟨rfl, rfl⟩
+  cases hp : popMin sk.agenda with
+  | none =>
+    rw [hp] at hst
+    rw [hst] at h
+    obtain ⟨hv, hs'⟩ := hret h
+    exact ⟨hv, k, sk, hk, h3, hs', gk.inv, hfk, hs' ▸ hfree, hbefore', by intro m rest hm; rw [hp] at hm; cases hm⟩
+  | some mr =>
+    obtain ⟨m, rest⟩ := mr
+    rw [hp] at hst
+    simp only at hst
+    by_cases hlt' : (c.rnEntry m).lt c.sentEntry = true
+    · rw [if_pos hlt'] at hst
+      rw [hst] at h
+      cases hs1 : step body fuel sk with
+      | ok s1 => rw [hs1] at h; cases h
+      | stopped o s1 => exact absurd hs1 (step_not_stopped_of_allStopFree body fuel sk gk.nostop o s1)
+      | crash x s1 => rw [hs1] at h; cases h
+      | empty => rw [hs1] at h; simp only [mapT, Option.isSome_some, if_true] at h; cases h
+    · rw [if_neg hlt'] at hst
+      rw [hst] at h
+      obtain ⟨hv, hs'⟩ := hret h
+      refine ⟨hv, k, sk, hk, h3, hs', gk.inv, hfk, hs' ▸ hfree, hbefore', ?_⟩
+      intro m' rest' hm
+      rw [hp] at hm
+      cases hm
+      exact fun hc' => hlt' ((c.lt_sent_iff m).mpr hc')
+
 
 end SplitCfg
